@@ -8,7 +8,7 @@ HIDDEN = re.compile(r' seg=\d+ si=\S+ pe=\S+ canon=\d rp=\S')
 def cfg_view(op, impl):
     """what cfg_driver.cpp prints for this operation, derived from the model's answer line"""
     t = op.split(' ')[0]
-    if t in ('probe', 'frompath', 'topath', 'rt', 'utf', 'cmp', 'idnahyp'): return None
+    if t in ('probe', 'rt', 'utf', 'cmp', 'idnahyp'): return None
     s = HIDDEN.sub('', impl)
     s = re.sub(r' so=\d', '', s)
     s = re.sub(r'\bcp=\d ', '', s)
@@ -26,7 +26,9 @@ def compile_cfg(name, std, ndebug, opt, amalgam_dir, outdir):
     else:
         srcs = [os.path.join(VERIF, 'harness', 'cfg_driver.cpp')] + [os.path.join(REPO, 'src', f) for f in LIB_SRCS]
         flags += ['-I' + os.path.join(REPO, 'include')]
-    return exe, subprocess.Popen(['g++'] + flags + srcs + ['-licuuc', '-licudata', '-o', exe], stdout=subprocess.PIPE, stderr=subprocess.STDOUT, text=True)
+    # link to a temporary name and rename: a killed build must not leave a truncated executable that looks cached
+    tmp = exe + '.tmp%d' % os.getpid()
+    return exe, subprocess.Popen(['sh', '-c', 'g++ "$@" && mv -f %s %s' % (tmp, exe), 'sh'] + flags + srcs + ['-licuuc', '-licudata', '-o', tmp], stdout=subprocess.PIPE, stderr=subprocess.STDOUT, text=True)
 
 def make_amalgamation():
     """fresh amalgamation of the CURRENT tree in a scratch copy outside /repo and /verif"""
@@ -106,6 +108,7 @@ def _configs(cfgs, lines):
             checked += 1
             if out[i] != expect[i] and bad is None: bad = i
         if len(out) < len(lines) and bad is None: bad = len(out)
+        if rc != 0 and bad is None: bad = len(lines) - 1   # complete transcript but abnormal exit
         per[name] = 'identical' if bad is None else 'differs at line %d' % bad
         if bad is not None and len(viol) < 3:
             j = bad
@@ -146,6 +149,7 @@ def threads(tier, seed, runner, lines):
         bad = None
         for i in range(min(len(body), len(lines))):
             if expect[i] is not None and body[i] != expect[i]: bad = i; break
+        if bad is None and len(body) < len(lines): bad = len(body) - 1 if body else 0
         if first_bad or bad is not None:
             diffs += 1
             if len(viol) < 2:
@@ -208,6 +212,9 @@ def tables(tier, seed, runner, lines):
             checked += 1
             if enc[c] != want[('encbyte', c)] and len(viol) < 4:
                 viol.append(('table', ['member encbyte %x' % c], 'language mode %s, urlencoded byte table, byte 0x%02X: library %s, the Standard %s' % (m, c, enc[c], want[('encbyte', c)]), True))
+        ed = d.get('earlydiff', ['0 - 0'])[0].split()
+        if ed[0] != '0' and len(viol) < 4:
+            viol.append(('table', ['member %s %s' % (ed[1] if ed[1] != '-' else 'fragment', ed[2])], 'language mode %s: %s lookups give another answer DURING STATIC INITIALIZATION (before the library\'s own initializers have run) than afterwards; first: table %s, code point U+%04X — the table is no longer constant-initialized' % (m, ed[0], ed[1], int(ed[2], 16)), True))
         if d['widemembers'][0].strip() != '0' and len(viol) < 4:
             viol.append(('table', ['member fragment 141'], 'language mode %s: %s code units above 0xFF are reported as members of some set / class' % (m, d['widemembers'][0]), True))
     cov['table_entries_compared'] = checked
@@ -305,6 +312,9 @@ def _wpt(which, runner):
     def hxs(s): return '-' if s == '' else s.encode('utf-8', 'surrogatepass').hex()
     starts = [i for i, l in enumerate(lines) if l == 'case'][1:]   # the first 'case' is the stream separator
     cov = {'cases': len(d), 'spec_agrees': 0, 'cpp_agrees': 0}
+    if getattr(g, 'wpt_missing', None): cov['data_files_not_readable'] = sorted(g.wpt_missing)
+    if len(d) == 0:
+        viol.append(('wpt', ['# ' + which], 'wpt\nno conformance data could be read for %s (doc/wpt and /repo/test/data)' % which, False))
     viol = []
     for k, s0 in enumerate(starts[:len(d)]):
         if which == 'wpt':
@@ -316,7 +326,9 @@ def _wpt(which, runner):
         else:
             st, c = d[k]; i = s0 + 2
             want = {f: hxs(v) for f, v in c['expected'].items()}
-        if i >= len(cpp) or i >= len(lean): break
+        if i >= len(cpp) or i >= len(lean):
+            viol.append(('wpt', lines[s0:s0 + 3], 'wpt\nthe transcript ends before this case was answered (harness %d, model %d of %d lines): rc=%s %s' % (len(cpp), len(lean), len(lines), rc, err[-800:]), False))
+            break
         def agrees(ans):
             if want is None: return 'href=' not in ans
             f = dict(t.split('=', 1) for t in ans.split(' ') if '=' in t)
